@@ -318,8 +318,9 @@ def run(tier: str, seed: int) -> Report:
         "generator instead of OS entropy), or a scripted ECU answering what a TLC behaviour prescribes; lost replies "
         "and >10 s bus idle are environment events",
         "the `ecu` table / address.ecu link is filled by direct SQL (gallia never writes it; a user does the same)",
-        "recorded reply = response_pdu of the database row (that the row equals the wire is C11's subject; "
-        "disagreements are counted in coverage.wire_mismatch and excluded)",
+        "recorded reply = response_pdu of the database row; a row that differs from what was on the wire during the "
+        "recording (C11's subject in general) is reported here as Y0, because the replay then cannot be the recorded "
+        "ECU's answer",
         "replay requests arrive without bus idle (UDSServerTransport's 10 s inactivity reset is not triggered)",
         "another run with the SAME ECU name and properties cannot be separated by the selection: unspecified",
         "a second pass over the sequence on the same server instance is unspecified (design-layer comparison only)",
@@ -400,6 +401,17 @@ def _run(rep: Report, tier: str, seed: int, pool: Any) -> Report:
                               "target": {"url": "c12inproc://target", "ecu_name": "tgt", "props": TARGET_PROPS,
                                          "steps": [{"pdu": a} for a, _ in ex],
                                          "peer": {"kind": "script", "script": [b for _, b in ex]}}})
+    # a slow ECU: the answer to a request arrives after the client's timeout and is read as the answer to the NEXT
+    # request (the client refuses it there as a mismatch, but it is the reply that was recorded for that request
+    # and it moves the client's session / security level like any reply)
+    for name, late in (("dsc", ("1003", "5003003201f4")), ("seed", ("2701", "6701aabb")), ("reset", ("1101", "5101"))):
+        pre = [("1003", "5003003201f4"), ("22f190", "62f19009")] if name == "reset" else []
+        ex = pre + [(late[0], None), ("22f190", late[1]), ("22f190", "62f19001"), ("22f186", "62f18603"),
+                    ("3101ff00", "7f3133"), ("22f190", "62f19002"), ("1001", "5001003201f4"), ("22f190", "62f19003")]
+        cases.append({"id": f"w-late-reply-{name}", "second_pass": False,
+                      "target": {"url": "c12inproc://target", "ecu_name": "tgt", "props": TARGET_PROPS,
+                                 "steps": [{"pdu": a} for a, _ in ex],
+                                 "peer": {"kind": "script", "script": [b for _, b in ex]}}})
     # probes OUTSIDE the quantifier of C12 (an ECU that answers undecodable bytes is not a RandomUDSServer
     # model): executed and reported in the evidence, never a violation of this check
     for name, bad in (("p-malformed-positive", "6212"), ("p-malformed-negative", "7f22")):
@@ -413,6 +425,16 @@ def _run(rep: Report, tier: str, seed: int, pool: Any) -> Report:
     traces = [t for t in traces if "skip" not in t]
     rep.extra["skipped_rows_lost"] = len(skipped)
     rep.extra["wire_mismatch"] = sum(1 for t in traces if t.get("info", {}).get("wire_mismatch"))
+    # "the recorded ECU's answers" are what the ECU answered: a recording whose rows do not hold the bytes that were
+    # on the wire (or that lost rows) cannot be replayed faithfully whatever the replaying server does
+    for t in [t for t in traces if t.get("info", {}).get("wire_mismatch")][:5] + skipped[:5]:
+        if str(t["id"]).startswith("p-"):
+            continue  # probes outside the quantifier
+        rep.violate("Y0/the-database-does-not-hold-what-the-ecu-answered",
+                    {"what": "rows-lost" if "skip" in t else "row-differs-from-the-wire"},
+                    {"case": next((c for c in cases if str(t["id"]).split("/")[0] == str(c["id"])), None),
+                     "trace_id": t["id"], "info": {k: t["info"][k] for k in ("n_steps", "n_rows", "outcomes", "wire_mismatch")
+                                               if k in t["info"]}})
     traces = [t for t in traces if not t.get("info", {}).get("wire_mismatch")]
     if len(skipped) > len(cases) // 10:
         raise Machinery(f"{len(skipped)} of {len(cases)} recordings lost rows: {skipped[0]}")
@@ -521,8 +543,14 @@ def replay(path: str) -> int:
             print(f"design-layer violation {v['clause']}: re-run the check")
             bad += 1
             continue
-        traces = [t for t in L.run_case(d["case"]) if "skip" not in t]
-        verdicts, _ = validate(traces)
+        alltr = L.run_case(d["case"])
+        for t in alltr:
+            if "skip" in t or t.get("info", {}).get("wire_mismatch"):
+                print(f"replay id={t['id']}: the database does not hold what the ECU answered "
+                      f"({t.get('skip') or t['info']['wire_mismatch']})")
+                bad += 1
+        traces = [t for t in alltr if "skip" not in t and not t.get("info", {}).get("wire_mismatch")]
+        verdicts, _ = validate(traces) if traces else ({}, None)
         for t in traces:
             vv = verdicts[str(t["id"])]
             print(f"replay id={t['id']} selector={sel_kind(t['sel'])} verdict={vv[0]} at={vv[2]} explained_by={vv[3]}")
